@@ -199,7 +199,7 @@ void apply(Heap &hp, CaseCtx &cx, int op, uint8_t a, uint8_t b, int K, size_t ma
         CHECK(cc.calls == n, "C15.heap.once", "%s clear made %zu callbacks for %zu elements", hp.tag, cc.calls, n);
         size_t sz;
         LIB(sz = cstl_heap_size(&hp.h));
-        CHECK(sz == 0, "C15.heap.empty", "%s size %zu after clear", hp.tag, sz);
+        CHECK(sz == 0, g_prop == "C15" ? "C15.heap.empty" : "C07.size", "%s size %zu after clear", hp.tag, sz);
         if (n >= 3) cx.clear3 = true;
         break;
     }
